@@ -19,6 +19,10 @@ SUPPORTS = {
     "W4CommandFromU8IsTotal": ["C03"],
     "W5ReloadStateIsPrivate": ["C18"],
     "W6IdleMapIsPrivate": ["C12", "C13"],
+    "W7SchemeIsImmutable": ["C19", "C05"],
+    "W7bPushedCellIsPrivate": ["C19"],
+    "W8SessionSchemeIsPrivate": ["C19"],
+    "W9ReaderStateIsPrivate": ["C01", "C08"],
 }
 
 
